@@ -78,14 +78,17 @@ def run(ck, replay=None):
     ck.sany("MC_LinSolve", "Trace_LinSolve")
     r = ck.model_check("MC_LinSolve", f"MC_LinSolve_{ck.tier}.cfg", workers=4)
     shapes = sorted({tuple(p[1]) for p in r.printed("SCN") if int(np.prod(p[1])) > 1})
-    hists = [[[m, int(bool(re))] for (m, re) in p[1]] for p in r.printed("HIST")]
+    hists = sorted([[m, int(bool(re))] for (m, re) in p[1]] for p in r.printed("HIST"))     # (TLC's workers print in any order)
     darsia = import_darsia()
     rng = random.Random(ck.seed)
     quick = ck.tier == "quick"
     events = []
     # (a) index bookkeeping for every shape
-    for s in shapes:
-        events.append(pattern_event(darsia, s, "pattern:" + "x".join(map(str, s))))
+    # ... and for grids that agree in every count (cells, faces, entries of the reduced Jacobian, pinned cell) but not in
+    # shape, one after the other in one process: the index tables are a function of the shape
+    twins = [(3, 5), (5, 3), (3, 5), (3, 3, 5), (5, 3, 3), (3, 5, 3), (2, 6), (6, 2), (3, 4), (4, 3)]
+    for s in shapes + twins:
+        events.append(pattern_event(darsia, s, "pattern:" + "x".join(map(str, s)) + (":twin" if s in twins else "")))
     # (b) dispatch table
     grid = darsia.Grid((3, 2), [0.5, 0.25])
     nf, nc = int(grid.num_faces), int(grid.num_cells)
@@ -188,10 +191,13 @@ def run(ck, replay=None):
     # then reuse" from "set up twice"), plus a sample (thorough: all) of the longer histories
     short = [h for h in hists if len(h) <= 3]       # (three solves: e.g. reuse on A1, new set-up for A2, reuse on A2)
     longer = [h for h in hists if len(h) > 3]
+    # of the longer ones always those in which BOTH matrices are solved with a reused set-up (set up A1, reuse, set up A2, reuse)
+    both = [h for h in longer if {m for (m, re) in h if re} == {1, 2}]
+    rest = [h for h in longer if h not in both]
     sel = []
     for combo in combos:
-        sel += [(combo, h) for h in short]
-        sel += [(combo, h) for h in (longer if not quick else rng.sample(longer, min(len(longer), 3)))]
+        sel += [(combo, h) for h in short + both]
+        sel += [(combo, h) for h in (rest if not quick else rng.sample(rest, min(len(rest), 3)))]
     for hi, ((form, backend), hist) in enumerate(sel):
         e = {"tid": f"reuse:{hi}", "op": "reuse", "hist": hist, "errs": [], "raised": 0, "form": form, "backend": backend}
         try:
